@@ -571,6 +571,15 @@ impl ElementRaw {
     /// `elemtype` is the type of the copy: an element can have a different type in the target version, with
     /// different attributes and sub elements; all content must be judged according to that type
     fn deep_copy(&self, elemtype: ElementType, target_version: AutosarVersion) -> Result<Element, AutosarDataError> {
+        // an element without a SHORT-NAME cannot be used in a version in which its type requires one
+        if elemtype.is_named_in_version(target_version)
+            && !matches!(self.content.first(), Some(ElementContent::Element(e)) if e.element_name() == ElementName::ShortName)
+        {
+            return Err(AutosarDataError::VersionIncompatibleData {
+                version: target_version,
+            });
+        }
+
         let copy_wrapped = ElementRaw {
             elemname: self.elemname,
             elemtype,
